@@ -1,5 +1,17 @@
 """Per-property configuration of engine K (which harnesses, bounds, stubs, assumptions)."""
 
+import gen_c19
+
+def _c19_pre(ov, tier, seed):
+    try:
+        _c19_pre.info = gen_c19.generate(ov)
+    except gen_c19.GateError as e:
+        import overlay
+        raise overlay.OverlayError("C19 coverage gate: " + str(e))
+
+def _c19_post(ev):
+    ev["coverage"]["constants_table"] = getattr(_c19_pre, "info", {})
+
 def K(prefix, **kw):
     d = dict(filters_quick=[prefix + "_"], filters_thorough=[prefix + "_", prefix + "t_"], jobs=8,
              harness_timeout=600, harness_timeout_thorough=3000, total_timeout=3000, total_timeout_thorough=14000,
@@ -15,6 +27,11 @@ PROPS = {
     "C12": K("c12", extra=["-Z", "stubbing"], bounds="all 256 vectors, all u8 bound pairs of 15 range forms, all canonical handler addresses, 3-step option-setter programs (unwind 4)",
              stubs=["S-addr: VirtAddr::new -> new_unsafe in c12_load_hands_cpu_own_address only (CBMC object addresses are never canonical)"],
              trusted_base=["rustc->Kani->CBMC", "CaDiCaL", "overlay O1-O4", "ISA model (mov r,cs; lidt)"]),
+    "C13": K("c13", extra=["-Z", "stubbing"], bounds="all 256 vectors x all (lo,hi) pairs; hardware entry/return of extern \"x86-interrupt\" functions is outside (LLVM back end)",
+             stubs=["S-addr: VirtAddr::new -> new_unsafe (function addresses in CBMC are not canonical)"]),
+    "C19": K("c19", pre=_c19_pre, post_evidence=_c19_post,
+             bounds="finite: every public constant (coverage-gated against the tree) + codecs over all u8/u16/u64 inputs",
+             trusted_base=["rustc->Kani->CBMC", "CaDiCaL", "overlay O1-O4", "oracle/constants.txt (typed in from SDM/APM)"]),
     "C14": K("c14", bounds="one append from every valid table state, MAX in {1,2,3,8,9} (unwind MAX+2); all descriptors, all u16 selectors"),
     "C15": K("c15", bounds="no loop; all 2^64 TSS addresses, all descriptor bit patterns"),
     "C16": K("c16", bounds="no loop (PAT: unwind 9); all prior register contents x all argument values; ISA model of ~35 instructions is the trusted base",
